@@ -115,7 +115,9 @@ Definition gtransfer (res : option vresolver) (me phys clk : N) (sndr rcv : opti
    the changes / rev negotiation (the same BLIP rev arriving twice after both copies passed the negotiation) *)
 Definition gput (res : option vresolver) (me phys clk : N) (i l : vdoc) : option vdoc * gstatus * N :=
   if unsendable i then (Some l, GError, clk)
-  else if d_del i && d_del l then (Some (adopt (d_hlv l) i), GApplied, clk)
+  else if d_del i && d_del l then
+         if known_tombstone_cancelled && dominates (d_hlv l) (cv (d_hlv i)) then (Some l, GCancelled, clk)
+         else (Some (adopt (d_hlv l) i), GApplied, clk)
   else match is_in_conflict (d_hlv l) (d_hlv i) with
        | AlreadyPresent => (Some l, GCancelled, clk)
        | NoConflict => (Some (adopt (d_hlv l) i), GApplied, clk)
